@@ -25,21 +25,24 @@ type xtype struct {
 	kind       string   // int dec str bool enum
 	lits       []string // literal values (canonical text); data values are drawn at and around them
 	relational bool
+	// literals that are not values of the type and still have a verdict: numbers beyond the range or between two
+	// values, names the enumeration does not have
+	off []string
 }
 
 var c16types = []xtype{
-	{"int8", "int8", "int", []string{"-128", "-1", "0", "5", "127"}, true},
-	{"int32", "int32", "int", []string{"-2147483648", "-7", "0", "10", "2147483647"}, true},
-	{"int64", "int64", "int", []string{"-9223372036854775808", "-5", "0", "9223372036854775807"}, true},
-	{"uint8", "uint8", "int", []string{"0", "200", "255"}, true},
-	{"uint32", "uint32", "int", []string{"0", "3000000000", "4294967295"}, true},
-	{"uint64", "uint64", "int", []string{"0", "10", "9223372036854775807", "9223372036854775808", "18446744073709551615"}, true},
-	{"decimal64", "decimal64 { fraction-digits 2; }", "dec", []string{"-2.50", "0.00", "1.50", "99.25", "1.10", "0.30", "-2.20", "100.01", "0.70"}, true},
-	{"string", "string", "str", []string{"b", "abc", "", "Zeta", "é"}, true},
-	{"boolean", "boolean", "bool", []string{"true", "false"}, false},
-	{"enum", "enumeration { enum lo; enum mid; enum hi; }", "enum", []string{"lo", "mid", "hi"}, false},
+	{"int8", "int8", "int", []string{"-128", "-1", "0", "5", "127"}, true, []string{"-129", "128", "300", "4.5", "-0.5", "127.5", "5.0", "-9223372036854775809"}},
+	{"int32", "int32", "int", []string{"-2147483648", "-7", "0", "10", "2147483647"}, true, []string{"3000000000", "-2147483649", "2147483648", "9.5", "-7.25", "10.0", "18446744073709551616"}},
+	{"int64", "int64", "int", []string{"-9223372036854775808", "-5", "0", "9223372036854775807"}, true, []string{"9223372036854775808", "-9223372036854775809", "18446744073709551615", "-4.5", "0.5", "36893488147419103232"}},
+	{"uint8", "uint8", "int", []string{"0", "200", "255"}, true, []string{"-1", "256", "300", "199.5", "200.0", "0.5", "-128"}},
+	{"uint32", "uint32", "int", []string{"0", "3000000000", "4294967295"}, true, []string{"-1", "4294967296", "2999999999.5", "-2147483648"}},
+	{"uint64", "uint64", "int", []string{"0", "10", "9223372036854775807", "9223372036854775808", "18446744073709551615"}, true, []string{"-1", "18446744073709551616", "9.5", "-9223372036854775808", "36893488147419103232"}},
+	{"decimal64", "decimal64 { fraction-digits 2; }", "dec", []string{"-2.50", "0.00", "1.50", "99.25", "1.10", "0.30", "-2.20", "100.01", "0.70"}, true, []string{"0", "1", "-3", "100", "1.5", "99.125", "1.375", "-2.5"}},
+	{"string", "string", "str", []string{"b", "abc", "", "Zeta", "é"}, true, nil},
+	{"boolean", "boolean", "bool", []string{"true", "false"}, false, nil},
+	{"enum", "enumeration { enum lo; enum mid; enum hi; }", "enum", []string{"lo", "mid", "hi"}, false, []string{"zz", "1", "Lo", "HI"}},
 	// a value of one member type against a literal of the other: only != holds
-	{"union", "union { type int32; type string; }", "uni", []string{"5", "none", "-7", "x1", "10"}, true},
+	{"union", "union { type int32; type string; }", "uni", []string{"5", "none", "-7", "x1", "10"}, true, nil},
 }
 
 // which member a text of the union { int32; string } is: the first one that takes it
@@ -116,7 +119,7 @@ func c16tok(t xtype, text string) string {
 		return "i" + text
 	case "dec":
 		f, _ := strconv.ParseFloat(text, 64)
-		return fmt.Sprintf("d%d", int64(math.Round(f*100)))
+		return fmt.Sprintf("d%de2", int64(math.Round(f*100)))
 	case "str":
 		return "s" + core.Hex(text)
 	case "bool":
@@ -131,6 +134,17 @@ func c16tok(t xtype, text string) string {
 		return "s" + core.Hex(text)
 	}
 	return "e" + core.Hex(text)
+}
+
+// model token of a literal: a number is what its text says, whatever the type of the leaf it is compared with
+func c16litTok(t xtype, text string) string {
+	if t.kind == "int" || t.kind == "dec" {
+		if dot := strings.IndexByte(text, '.'); dot >= 0 {
+			return fmt.Sprintf("d%se%d", text[:dot]+text[dot+1:], len(text)-dot-1)
+		}
+		return "i" + text
+	}
+	return c16tok(t, text)
 }
 
 func c16json(t xtype, text string) string {
@@ -184,7 +198,7 @@ func (c xcond) toks() []string {
 	if c.op == "" {
 		return append(out, "-")
 	}
-	return append(out, c.op, c16tok(c.litType, c.lit))
+	return append(out, c.op, c16litTok(c.litType, c.lit))
 }
 
 type xnode struct {
@@ -229,7 +243,11 @@ func (g *c16gen) cond(ops []operand, parentCtx bool) xcond {
 	if !o.typ.relational {
 		op = core.Pick(g.r, []string{"eq", "ne"})
 	}
-	return xcond{path: o.path, op: op, lit: core.Pick(g.r, o.typ.lits), litType: o.typ, parentCtx: parentCtx}
+	lit := core.Pick(g.r, o.typ.lits)
+	if len(o.typ.off) > 0 && g.r.Chance(30) {
+		lit = core.Pick(g.r, o.typ.off)
+	}
+	return xcond{path: o.path, op: op, lit: lit, litType: o.typ, parentCtx: parentCtx}
 }
 
 // body generates the children of a container / list entry / module and the operands they offer
@@ -441,11 +459,21 @@ func (g *c16gen) data(kids []*xnode, litHints map[string][]string) []*xdata {
 	return out
 }
 
+// a literal that is a value of the type (data is only ever drawn around those)
+func c16isValue(t xtype, lit string) bool {
+	for _, l := range t.off {
+		if l == lit {
+			return false
+		}
+	}
+	return true
+}
+
 // literals used against each operand name, so that data lands at and around them
 func c16hints(kids []*xnode, out map[string][]string) {
 	for _, n := range kids {
 		for _, c := range n.conds {
-			if c.op != "" {
+			if c.op != "" && c16isValue(c.litType, c.lit) {
 				out[c.path[len(c.path)-1]] = append(out[c.path[len(c.path)-1]], c.lit)
 			}
 		}
@@ -1032,7 +1060,7 @@ func c16leafProbes(c *core.Ctx) {
 }
 
 func C16(c *core.Ctx) {
-	c.Rule = "generated modules placing 'when' on leaves (sibling, nested-path and through-a-list operands), containers and lists (own operands, per entry), on uses (leaf, container with and without a condition of its own, list) and on augments; operands of every integer type incl. 64-bit extremes, decimal64, string, boolean, enumeration; all six operators and plain existence paths; data with the operand unset, at and one step around the literal, at the type's extremes; (i) read (WriteJSON) from the JSON reader and from reflection over typed maps compared with the Lean model, (ii) ?where= on lists and ?filter= on a notification stream compared with the model's filter, (iii) upsert of a conditional leaf / of a leaf inside a conditional container into a reflection store: written iff the model says the conditions hold, nothing else changed; directed: keyed Find of entries hidden by their list's condition; comparisons with a union operand; conditions reaching a node through nested uses, through a choice or a case (stated there, or on the uses / augment that brings them in). non-trivial = read where ≥1 condition is false and ≥1 true; distinct by (module, tree, source)"
+	c.Rule = "generated modules placing 'when' on leaves (sibling, nested-path and through-a-list operands), containers and lists (own operands, per entry), on uses (leaf, container with and without a condition of its own, list) and on augments; operands of every integer type incl. 64-bit extremes, decimal64, string, boolean, enumeration; all six operators and plain existence paths; literals that are values of the operand's type and (30 %) literals that are not: beyond the range, beyond 64 bits, with a fraction against an integer, whole against a decimal64, names the enumeration does not have; data with the operand unset, at and one step around the literal, at the type's extremes; (i) read (WriteJSON) from the JSON reader and from reflection over typed maps compared with the Lean model, (ii) ?where= on lists and ?filter= on a notification stream compared with the model's filter, (iii) upsert of a conditional leaf / of a leaf inside a conditional container into a reflection store: written iff the model says the conditions hold, nothing else changed; directed: keyed Find of entries hidden by their list's condition; comparisons with a union operand; conditions reaching a node through nested uses, through a choice or a case (stated there, or on the uses / augment that brings them in). non-trivial = read where ≥1 condition is false and ≥1 true; distinct by (module, tree, source)"
 	c.Assumptions = append(c.Assumptions,
 		"operands of a condition and the nodes on the way to them carry no condition themselves (the model does not chain conditions of operands)",
 		"a leaf's own condition is evaluated in the container that holds the leaf, a container's / list entry's own condition in itself (the library's convention, pinned by its tests), a condition from uses/augment in the parent (RFC 7950 §7.21.5)",
@@ -1254,7 +1282,7 @@ func C16(c *core.Ctx) {
 				{path: []string{"info", "ratio"}, typ: c16types[6]}, {path: []string{"info"}, exists: true}}
 			fc := g.cond(ops, false)
 			h := map[string][]string{}
-			if fc.op != "" {
+			if fc.op != "" && c16isValue(fc.litType, fc.lit) {
 				h[fc.path[len(fc.path)-1]] = []string{fc.lit}
 			}
 			var events [][]*xdata
